@@ -91,7 +91,18 @@ fn play(args: &[String]) -> i32 {
         };
         p.light_obs = sched["light"].as_bool().unwrap_or(false);
         runs += 1;
-        writeln!(out, "{}", json!({"ev": "Reset", "run": sched["run"], "res": "ok", "traces": traces, "net": net})).unwrap();
+        // a fork-crossing configuration starts from `base` mined and committed empty blocks (Brc20Ref.Base)
+        let base = sched["base"].as_u64().unwrap_or(0);
+        if base > 0 {
+            let a = p.inst.call("brc20_mine", json!([base, 5]));
+            let b = p.inst.call("brc20_commitToDatabase", json!([]));
+            if !a.is_ok() || !b.is_ok() {
+                eprintln!("prelude failed: {} / {}", a.err_text(), b.err_text());
+                return 2;
+            }
+            p.light_obs = true;
+        }
+        writeln!(out, "{}", json!({"ev": "Reset", "run": sched["run"], "res": "ok", "traces": traces, "net": net, "base": base})).unwrap();
         for step in sched["steps"].as_array().cloned().unwrap_or_default() {
             let mut ev = p.step(&step);
             denull(&mut ev);
